@@ -156,6 +156,14 @@ def norm_atom(fx: ast.AST, pol: bool) -> Tuple[ast.AST, bool]:
     if isinstance(fx, ast.Compare) and len(fx.ops) == 1 and type(fx.ops[0]) in (ast.IsNot, ast.NotEq, ast.NotIn):
         flip = {ast.IsNot: ast.Is, ast.NotEq: ast.Eq, ast.NotIn: ast.In}[type(fx.ops[0])]
         return ast.Compare(left=fx.left, ops=[flip()], comparators=fx.comparators), not pol
+    # all(map(p, xs)) / any(map(p, xs))  ==  all(p(x) for x in xs) / any(..)
+    if isinstance(fx, ast.Call) and isinstance(fx.func, ast.Name) and fx.func.id in ("all", "any") and len(fx.args) == 1 and not fx.keywords and isinstance(fx.args[0], ast.Call) and isinstance(fx.args[0].func, ast.Name) and fx.args[0].func.id == "map" and len(fx.args[0].args) == 2 and isinstance(fx.args[0].args[0], (ast.Name, ast.Attribute)):
+        mp = fx.args[0]
+        var = ast.copy_location(ast.Name(id="_each", ctx=ast.Load()), mp)
+        tgt = ast.copy_location(ast.Name(id="_each", ctx=ast.Store()), mp)
+        call = ast.copy_location(ast.Call(func=mp.args[0], args=[var], keywords=[]), mp)
+        gen = ast.copy_location(ast.GeneratorExp(elt=call, generators=[ast.comprehension(target=tgt, iter=mp.args[1], ifs=[], is_async=0)]), mp)
+        fx = ast.copy_location(ast.Call(func=fx.func, args=[gen], keywords=[]), fx)
     # all(not P(x) for x in xs)  ==  not any(P(x) for x in xs)
     if isinstance(fx, ast.Call) and isinstance(fx.func, ast.Name) and fx.func.id == "all" and len(fx.args) == 1 and not fx.keywords and isinstance(fx.args[0], (ast.GeneratorExp, ast.ListComp)) and isinstance(fx.args[0].elt, ast.UnaryOp) and isinstance(fx.args[0].elt.op, ast.Not):
         g = fx.args[0]
